@@ -248,85 +248,10 @@ func runC19(c *Ctx) {
 				continue
 			}
 			nEnums++
-			key := pk + "." + typ
-			es := classifyEnum(c, pk, typ)
-			if es.undec != "" {
-				r.Broken("R19.1", key, "enum text methods have an unrecognised shape: "+es.undec)
-				continue
-			}
-			kind := "plain"
-			if es.bitmask {
-				kind = fmt.Sprintf("bitmask, %d bit positions", es.N)
-			}
-			r.Check(len(es.probs) == 0, "R19.1", key, c.Pos(tn.Pos()), kind, strings.Join(es.probs, "; "))
-			// R19.2
-			labels, ok1 := evalMapLit(p, "labels_"+typ)
-			values, ok2 := evalMapLit(p, "values_"+typ)
-			if !ok1 || !ok2 {
-				r.Broken("R19.2", key, "labels_/values_ are not constant map literals")
-				continue
-			}
-			consts := enumConsts(p, tn)
-			var probs []string
-			for _, k := range consts {
-				v := k.Val().ExactString()
-				if labels[v] != k.Name() {
-					probs = append(probs, fmt.Sprintf("labels[%s]=%q, expected %q", k.Name(), labels[v], k.Name()))
-				}
-				if values[k.Name()] != v {
-					probs = append(probs, fmt.Sprintf("values[%q]=%s, expected %s", k.Name(), values[k.Name()], v))
-				}
-				if _, err := strconv.Atoi(k.Name()); err == nil {
-					probs = append(probs, "constant name "+k.Name()+" is a numeral")
-				}
-			}
-			if len(labels) != len(consts) || len(values) != len(consts) {
-				probs = append(probs, fmt.Sprintf("%d constants, %d labels, %d values", len(consts), len(labels), len(values)))
-			}
-			if len(probs) > 3 {
-				probs = probs[:3]
-			}
-			r.Check(len(probs) == 0, "R19.2", key, c.Pos(tn.Pos()), fmt.Sprintf("%d constants ↔ names", len(consts)), strings.Join(probs, "; "))
-			// R19.3
-			if es.bitmask {
-				single := map[uint]bool{}
-				for _, k := range consts {
-					if v, ok := constant.Uint64Val(k.Val()); ok && v != 0 && v&(v-1) == 0 {
-						for i := uint(0); i < 64; i++ {
-							if v == 1<<i {
-								single[i] = true
-							}
-						}
-					}
-				}
-				anyBad := false
-				for _, k := range consts {
-					v, ok := constant.Uint64Val(k.Val())
-					if !ok {
-						continue
-					}
-					var bad []string
-					for i := uint(0); i < 64; i++ {
-						if v&(1<<i) == 0 {
-							continue
-						}
-						if int64(i) >= es.N {
-							bad = append(bad, fmt.Sprintf("bit %d is beyond the %d rendered bit positions", i, es.N))
-						} else if !single[i] {
-							bad = append(bad, fmt.Sprintf("bit %d has no single-flag constant (empty label)", i))
-						}
-					}
-					if len(bad) > 0 {
-						anyBad = true
-						r.Fail("R19.3", pk+"."+k.Name(), c.Pos(k.Pos()), fmt.Sprintf("%s = %d does not survive MarshalText/UnmarshalText: %s", k.Name(), v, strings.Join(bad, "; ")))
-					}
-				}
-				if !anyBad {
-					r.OK("R19.3", key, c.Pos(tn.Pos()), fmt.Sprintf("all %d constants use only labelled bits below %d", len(consts), es.N))
-				}
-			}
+			checkEnumType(c, p, pk, typ, tn, "R19.1", "R19.2", "R19.3")
 		}
 	}
+	ruleSkeletons(c, "", "R19.4")
 	if nEnums < 240 {
 		r.Broken("R19.1", "enum count", fmt.Sprintf("only %d defining enum types found", nEnums))
 	}
@@ -342,4 +267,86 @@ func enumConsts(p *packages.Package, tn *types.TypeName) []*types.Const {
 	}
 	sort.Slice(out, func(i, j int) bool { return out[i].Name() < out[j].Name() })
 	return out
+}
+
+// checkEnumType applies the three enum rules to one defining enum type.
+func checkEnumType(c *Ctx, p *packages.Package, pk, typ string, tn *types.TypeName, r1, r2, r3 string) {
+	r := c.R
+	key := pk + "." + typ
+	es := classifyEnum(c, pk, typ)
+	if es.undec != "" {
+		r.Broken(r1, key, "enum text methods have an unrecognised shape: "+es.undec)
+		return
+	}
+	kind := "plain"
+	if es.bitmask {
+		kind = fmt.Sprintf("bitmask, %d bit positions", es.N)
+	}
+	r.Check(len(es.probs) == 0, r1, key, c.Pos(tn.Pos()), kind, strings.Join(es.probs, "; "))
+	// R19.2
+	labels, ok1 := evalMapLit(p, "labels_"+typ)
+	values, ok2 := evalMapLit(p, "values_"+typ)
+	if !ok1 || !ok2 {
+		r.Broken(r2, key, "labels_/values_ are not constant map literals")
+		return
+	}
+	consts := enumConsts(p, tn)
+	var probs []string
+	for _, k := range consts {
+		v := k.Val().ExactString()
+		if labels[v] != k.Name() {
+			probs = append(probs, fmt.Sprintf("labels[%s]=%q, expected %q", k.Name(), labels[v], k.Name()))
+		}
+		if values[k.Name()] != v {
+			probs = append(probs, fmt.Sprintf("values[%q]=%s, expected %s", k.Name(), values[k.Name()], v))
+		}
+		if _, err := strconv.Atoi(k.Name()); err == nil {
+			probs = append(probs, "constant name "+k.Name()+" is a numeral")
+		}
+	}
+	if len(labels) != len(consts) || len(values) != len(consts) {
+		probs = append(probs, fmt.Sprintf("%d constants, %d labels, %d values", len(consts), len(labels), len(values)))
+	}
+	if len(probs) > 3 {
+		probs = probs[:3]
+	}
+	r.Check(len(probs) == 0, r2, key, c.Pos(tn.Pos()), fmt.Sprintf("%d constants ↔ names", len(consts)), strings.Join(probs, "; "))
+	// R19.3
+	if es.bitmask {
+		single := map[uint]bool{}
+		for _, k := range consts {
+			if v, ok := constant.Uint64Val(k.Val()); ok && v != 0 && v&(v-1) == 0 {
+				for i := uint(0); i < 64; i++ {
+					if v == 1<<i {
+						single[i] = true
+					}
+				}
+			}
+		}
+		anyBad := false
+		for _, k := range consts {
+			v, ok := constant.Uint64Val(k.Val())
+			if !ok {
+				continue
+			}
+			var bad []string
+			for i := uint(0); i < 64; i++ {
+				if v&(1<<i) == 0 {
+					continue
+				}
+				if int64(i) >= es.N {
+					bad = append(bad, fmt.Sprintf("bit %d is beyond the %d rendered bit positions", i, es.N))
+				} else if !single[i] {
+					bad = append(bad, fmt.Sprintf("bit %d has no single-flag constant (empty label)", i))
+				}
+			}
+			if len(bad) > 0 {
+				anyBad = true
+				r.Fail(r3, pk+"."+k.Name(), c.Pos(k.Pos()), fmt.Sprintf("%s = %d does not survive MarshalText/UnmarshalText: %s", k.Name(), v, strings.Join(bad, "; ")))
+			}
+		}
+		if !anyBad {
+			r.OK(r3, key, c.Pos(tn.Pos()), fmt.Sprintf("all %d constants use only labelled bits below %d", len(consts), es.N))
+		}
+	}
 }
